@@ -277,6 +277,13 @@ def check(case):
         have = sorted(_pk(norm_path(p)) for p in state.get_all_paths())
         if want != have:
           problems.append((np_, want[:4], have[:4]))
+      elif not _memoizable_doc(v) and not _through_box(np_):
+        # a value without identity is reached through its nearest identity-bearing container
+        want = _leaf_paths(np_, ref_by_path, by_id)
+        if want is not None:
+          have = sorted(_pk(norm_path(p)) for p in state.get_all_paths())
+          if want != have:
+            problems.append((np_, want[:4], have[:4]))
       if state.is_traversable(v):
         for _ in state.yield_map_child_values(v):
           pass
@@ -316,6 +323,100 @@ def check(case):
     return out
 
   # 6. identity rebuilds
+  err = _identity_rebuilds(root, has_box, feat, out)
+  if err:
+    return out
+  # 7. all-paths query with allow_caching=False after the structure gained a reference (mutates root)
+  if not has_box:
+    _check_growth(root, ref, out)
+  return out
+
+
+_MISSING = object()
+
+
+def _leaf_paths(np_, ref_by_path, by_id):
+  for k in range(len(np_) - 1, -1, -1):
+    obj = ref_by_path.get(_pk(np_[:k]), _MISSING)
+    if obj is _MISSING or isinstance(obj, _Wrapper):
+      return None
+    if _memoizable_doc(obj):
+      return sorted(_pk(p + np_[k:]) for p in by_id[id(obj)])
+  return None
+
+
+def _check_growth(root, ref, out):
+  """get_all_paths(allow_caching=False) reflects references added since the cache was filled."""
+  lists = [v for _, v in ref if type(v) is list]
+  cands = []
+  seen = set()
+  for _, v in ref:
+    if id(v) in seen or not _memoizable_doc(v) or C.is_internable(v) or v is root:
+      continue
+    seen.add(id(v))
+    if any(not _memoizable_doc(c) for _, c in ref_children(v)):
+      cands.append(v)
+  pair = None
+  for o in cands:
+    below = {id(x) for _, x in ref_walk(o)}
+    for l in lists:
+      if id(l) not in below:
+        pair = (l, o)
+        break
+    if pair:
+      break
+  if pair is None:
+    return
+  out.cls('growth_scenario')
+  l, o = pair
+  for tname, tcls in (('basic', daglish.BasicTraversal), ('memoized', daglish.MemoizedTraversal)):
+    states = []
+
+    def visit(v, state, states=states):
+      states.append(state)
+      state.get_all_paths()
+      if state.is_traversable(v):
+        for _ in state.yield_map_child_values(v):
+          pass
+
+    tcls.run(visit, root)
+    l.append(o)
+    try:
+      ref2 = list(ref_walk(root))
+      by_id2 = collections.defaultdict(list)
+      for p, v in ref2:
+        if _memoizable_doc(v):
+          by_id2[id(v)].append(p)
+      ref2_by_path = {_pk(p): v for p, v in ref2}
+      # leaves directly under the object that gained a path first: a query on a container would refresh the cache
+      def prio(state):
+        np_ = norm_path(state.current_path)
+        parent = ref2_by_path.get(_pk(np_[:-1]), _MISSING) if np_ else _MISSING
+        return 0 if (parent is o and not _memoizable_doc(state.original_value)) else 1
+      states.sort(key=prio)
+      for state in states[:8]:
+        np_ = norm_path(state.current_path)
+        v = state.original_value
+        if _memoizable_doc(v):
+          want = sorted(_pk(p) for p in by_id2[id(v)])
+        else:
+          want = _leaf_paths(np_, ref2_by_path, by_id2)
+          if want is None:
+            continue
+        try:
+          have = sorted(_pk(norm_path(p)) for p in state.get_all_paths(allow_caching=False))
+        except Exception as e:  # pylint: disable=broad-except
+          out.add('get_all_paths-uncached-raises', exc_kind(e), fiddle_frame(e), tname, repr(e)[:300])
+          return
+        if want != have:
+          out.add('get_all_paths-uncached-stale', 'mismatch', '', tname + (':leaf' if not _memoizable_doc(v) else ':container'),
+                  f'at {np_}: want {want[:4]} have {have[:4]}')
+          return
+    finally:
+      l.pop()
+
+
+def _identity_rebuilds(root, has_box, feat, out):
   want_sh = C.canon(root)
   want_tree = C.canon(root, sharing=False)
 
@@ -344,7 +445,7 @@ def check(case):
       out.add('identity-rebuild-differs', 'mismatch', '', feat + ':' + name,
               f'want {str(want_sh if sharing else want_tree)[:500]}\ngot  {str(got_t)[:500]}')
       return out
-  return out
+  return None
 
 
 _LATE_COUNT = [0]
